@@ -148,8 +148,38 @@ def decode_index(ix):
             return slice(ix[1], ix[2], ix[3])
         if ix and ix[0] == 'el':
             return Ellipsis
+        # advanced indexes - the caller's own containers, built afresh on every decode:
+        if ix and ix[0] == 'fx':
+            return [int(i) for i in ix[1]]                       # a list of integers  x[[0, 2]]
+        if ix and ix[0] == 'ia':
+            return np.array(ix[1], dtype=np.intp)                # an integer array     x[np.array([0, 2])]
+        if ix and ix[0] == 'bm':
+            return np.array(ix[1], dtype=bool)                   # a boolean mask       x[mask]
         return tuple(decode_index(i) for i in ix)
     return ix
+
+
+def index_is_advanced(ix):
+    if isinstance(ix, list):
+        if ix and ix[0] in ('fx', 'ia', 'bm'):
+            return True
+        if ix and ix[0] in ('sl', 'el'):
+            return False
+        return any(index_is_advanced(i) for i in ix)
+    return False
+
+
+def same_index(a, b):
+    """Structural equality of two decoded indexes (lists, arrays, tuples of them)."""
+    if type(a) is not type(b):
+        return False
+    if isinstance(a, tuple):
+        return len(a) == len(b) and all(same_index(x, y) for x, y in zip(a, b))
+    if isinstance(a, np.ndarray):
+        return a.dtype == b.dtype and a.shape == b.shape and bool(np.all(a == b))
+    if isinstance(a, list):
+        return len(a) == len(b) and all(type(x) is type(y) and x == y for x, y in zip(a, b))
+    return a is b or a == b
 
 
 def codes_of(obj):
@@ -1195,9 +1225,16 @@ class World(object):
         except Exception:
             region = None
         st.extra['getitem_region'] = region
+        adv = index_is_advanced(op['index'])
         yield
         x = self.obj(a)[index]
-        if region is not None and isinstance(region, np.ndarray):
+        if adv:
+            self.bump('getitem_advanced_index')
+            if not same_index(index, decode_index(op['index'])):
+                st.extra['index_mutated'] = repr(index)
+        # NumPy's own rule, asked of the model's position array (never of the object under test):
+        # basic indexes give views, advanced ones (lists, integer arrays, masks) give copies
+        if region is not None and isinstance(region, np.ndarray) and (not adv or np.shares_memory(region, s.pos)):
             self.finish_new(st, x, token=s.token, pos=region, origin='view')
             self.bump('view_created')
             if s.origin == 'view':
@@ -1515,10 +1552,17 @@ class World(object):
         st.redo = lambda t, src: t.set_val(V.carrier(op['val']), index=index)
         yield
         c = V.carrier(op['val'])
-        if op.get('via') == 'set_val':
-            self.obj(d).set_val(c, index=index)
-        else:
-            self.obj(d)[index] = c
+        adv = index_is_advanced(op['index'])
+        try:
+            if op.get('via') == 'set_val':
+                self.obj(d).set_val(c, index=index)
+            else:
+                self.obj(d)[index] = c
+        finally:
+            if adv:
+                self.bump('setitem_advanced_index')
+                if not same_index(index, decode_index(op['index'])):
+                    st.extra['index_mutated'] = repr(index)
 
     def op_setitem_chain(self, st):
         """The documented x[i][j] = v: must write through to x."""
